@@ -1,0 +1,475 @@
+//go:build verif
+
+// Contracts for the deductive verifier in /verif (govc). This file is comment-only and is
+// compiled only with the build tag `verif`; it changes no behaviour. Blocks are keyed by
+// function / case / loop ordinal, never by line. Syntax: see /verif/DESIGN.md section 2.3.
+
+package goatlang
+
+// ---------------------------------------------------------------------------------------------
+// Spec functions (pure, inlined at use)
+// ---------------------------------------------------------------------------------------------
+
+//@ spec isInt(t Type) bool
+//@   def t == TypeInt8 || t == TypeUint8 || t == TypeInt32 || t == TypeUint32
+//@
+//@ spec valid(v Value) bool
+//@   def (v.t == TypeInt8 ==> same(v.num, float64(int8(v.num)))) && (v.t == TypeUint8 ==> same(v.num, float64(uint8(v.num)))) && (v.t == TypeInt32 ==> same(v.num, float64(int32(v.num)))) && (v.t == TypeUint32 ==> same(v.num, float64(uint32(v.num)))) && (v.t == untypedInt ==> same(v.num, float64(int64(v.num))) && small(int64(v.num)))
+//@
+//@ spec small(x int64) bool
+//@   def -4503599627370496 <= x && x <= 4503599627370496
+//@
+//@ spec fits8(v Value) bool
+//@   def -128 <= int64(v.num) && int64(v.num) <= 127
+//@ spec fitsU8(v Value) bool
+//@   def 0 <= int64(v.num) && int64(v.num) <= 255
+//@ spec fits32(v Value) bool
+//@   def -2147483648 <= int64(v.num) && int64(v.num) <= 2147483647
+//@ spec fitsU32(v Value) bool
+//@   def 0 <= int64(v.num) && int64(v.num) <= 4294967295
+
+// ---------------------------------------------------------------------------------------------
+// Layer N: value.go numeric core
+// ---------------------------------------------------------------------------------------------
+
+//@ func mixType
+//@   inline
+//@ func (Type).base
+//@   inline
+//@ func (Type).value
+//@   inline
+//@ func (Value).Bool
+//@   inline
+//@ func (Value).Type
+//@   inline
+//@ func Nil
+//@   inline
+//@ func Bool
+//@   inline
+//@ func String
+//@   inline
+//@ func newZero
+//@   inline
+
+//@ func (Value).opAdd
+//@   property C04
+//@   intmode bv
+//@   pure
+//@   requires valid(v) && valid(b)
+//@   panics_iff (v.t | b.t) == TypeString && (!is(v.value, stringT) || !is(b.value, stringT))
+//@   ensures#i8 v.t == TypeInt8 && b.t == TypeInt8 ==> result.t == TypeInt8 && valid(result) && int8(result.num) == int8(v.num) + int8(b.num)
+//@   ensures#i8c v.t == TypeInt8 && b.t == untypedInt && fits8(b) ==> result.t == TypeInt8 && valid(result) && int8(result.num) == int8(v.num) + int8(int64(b.num))
+//@   ensures#ci8 v.t == untypedInt && b.t == TypeInt8 && fits8(v) ==> result.t == TypeInt8 && valid(result) && int8(result.num) == int8(int64(v.num)) + int8(b.num)
+//@   ensures#u8 v.t == TypeUint8 && b.t == TypeUint8 ==> result.t == TypeUint8 && valid(result) && uint8(result.num) == uint8(v.num) + uint8(b.num)
+//@   ensures#u8c v.t == TypeUint8 && b.t == untypedInt && fitsU8(b) ==> result.t == TypeUint8 && valid(result) && uint8(result.num) == uint8(v.num) + uint8(int64(b.num))
+//@   ensures#cu8 v.t == untypedInt && b.t == TypeUint8 && fitsU8(v) ==> result.t == TypeUint8 && valid(result) && uint8(result.num) == uint8(int64(v.num)) + uint8(b.num)
+//@   ensures#i32 v.t == TypeInt32 && b.t == TypeInt32 ==> result.t == TypeInt32 && valid(result) && int32(result.num) == int32(v.num) + int32(b.num)
+//@   ensures#i32c v.t == TypeInt32 && b.t == untypedInt && fits32(b) ==> result.t == TypeInt32 && valid(result) && int32(result.num) == int32(v.num) + int32(int64(b.num))
+//@   ensures#ci32 v.t == untypedInt && b.t == TypeInt32 && fits32(v) ==> result.t == TypeInt32 && valid(result) && int32(result.num) == int32(int64(v.num)) + int32(b.num)
+//@   ensures#u32 v.t == TypeUint32 && b.t == TypeUint32 ==> result.t == TypeUint32 && valid(result) && uint32(result.num) == uint32(v.num) + uint32(b.num)
+//@   ensures#u32c v.t == TypeUint32 && b.t == untypedInt && fitsU32(b) ==> result.t == TypeUint32 && valid(result) && uint32(result.num) == uint32(v.num) + uint32(int64(b.num))
+//@   ensures#cu32 v.t == untypedInt && b.t == TypeUint32 && fitsU32(v) ==> result.t == TypeUint32 && valid(result) && uint32(result.num) == uint32(int64(v.num)) + uint32(b.num)
+//@   ensures#f64 v.t == TypeFloat64 && b.t == TypeFloat64 ==> result.t == TypeFloat64 && same(result.num, v.num + b.num)
+//@   ensures#f64c v.t == TypeFloat64 && b.t == untypedInt ==> result.t == TypeFloat64 && same(result.num, v.num + b.num)
+//@   ensures#cf64 v.t == untypedInt && b.t == TypeFloat64 ==> result.t == TypeFloat64 && same(result.num, v.num + b.num)
+//@   ensures#cc v.t == untypedInt && b.t == untypedInt ==> result.t == untypedInt
+//@
+//@ func (Value).opSub
+//@   property C04
+//@   intmode bv
+//@   pure
+//@   requires valid(v) && valid(b)
+//@   nopanic
+//@   ensures#i8 v.t == TypeInt8 && b.t == TypeInt8 ==> result.t == TypeInt8 && valid(result) && int8(result.num) == int8(v.num) - int8(b.num)
+//@   ensures#i8c v.t == TypeInt8 && b.t == untypedInt && fits8(b) ==> result.t == TypeInt8 && valid(result) && int8(result.num) == int8(v.num) - int8(int64(b.num))
+//@   ensures#ci8 v.t == untypedInt && b.t == TypeInt8 && fits8(v) ==> result.t == TypeInt8 && valid(result) && int8(result.num) == int8(int64(v.num)) - int8(b.num)
+//@   ensures#u8 v.t == TypeUint8 && b.t == TypeUint8 ==> result.t == TypeUint8 && valid(result) && uint8(result.num) == uint8(v.num) - uint8(b.num)
+//@   ensures#u8c v.t == TypeUint8 && b.t == untypedInt && fitsU8(b) ==> result.t == TypeUint8 && valid(result) && uint8(result.num) == uint8(v.num) - uint8(int64(b.num))
+//@   ensures#cu8 v.t == untypedInt && b.t == TypeUint8 && fitsU8(v) ==> result.t == TypeUint8 && valid(result) && uint8(result.num) == uint8(int64(v.num)) - uint8(b.num)
+//@   ensures#i32 v.t == TypeInt32 && b.t == TypeInt32 ==> result.t == TypeInt32 && valid(result) && int32(result.num) == int32(v.num) - int32(b.num)
+//@   ensures#i32c v.t == TypeInt32 && b.t == untypedInt && fits32(b) ==> result.t == TypeInt32 && valid(result) && int32(result.num) == int32(v.num) - int32(int64(b.num))
+//@   ensures#ci32 v.t == untypedInt && b.t == TypeInt32 && fits32(v) ==> result.t == TypeInt32 && valid(result) && int32(result.num) == int32(int64(v.num)) - int32(b.num)
+//@   ensures#u32 v.t == TypeUint32 && b.t == TypeUint32 ==> result.t == TypeUint32 && valid(result) && uint32(result.num) == uint32(v.num) - uint32(b.num)
+//@   ensures#u32c v.t == TypeUint32 && b.t == untypedInt && fitsU32(b) ==> result.t == TypeUint32 && valid(result) && uint32(result.num) == uint32(v.num) - uint32(int64(b.num))
+//@   ensures#cu32 v.t == untypedInt && b.t == TypeUint32 && fitsU32(v) ==> result.t == TypeUint32 && valid(result) && uint32(result.num) == uint32(int64(v.num)) - uint32(b.num)
+//@   ensures#f64 v.t == TypeFloat64 && b.t == TypeFloat64 ==> result.t == TypeFloat64 && same(result.num, v.num - b.num)
+//@   ensures#f64c v.t == TypeFloat64 && b.t == untypedInt ==> result.t == TypeFloat64 && same(result.num, v.num - b.num)
+//@   ensures#cf64 v.t == untypedInt && b.t == TypeFloat64 ==> result.t == TypeFloat64 && same(result.num, v.num - b.num)
+//@   ensures#cc v.t == untypedInt && b.t == untypedInt ==> result.t == untypedInt
+//@
+//@ func (Value).opMul
+//@   property C04
+//@   intmode bv
+//@   pure
+//@   requires valid(v) && valid(b)
+//@   nopanic
+//@   ensures#i8 v.t == TypeInt8 && b.t == TypeInt8 ==> result.t == TypeInt8 && valid(result) && int8(result.num) == int8(v.num) * int8(b.num)
+//@   ensures#i8c v.t == TypeInt8 && b.t == untypedInt && fits8(b) ==> result.t == TypeInt8 && valid(result) && int8(result.num) == int8(v.num) * int8(int64(b.num))
+//@   ensures#ci8 v.t == untypedInt && b.t == TypeInt8 && fits8(v) ==> result.t == TypeInt8 && valid(result) && int8(result.num) == int8(int64(v.num)) * int8(b.num)
+//@   ensures#u8 v.t == TypeUint8 && b.t == TypeUint8 ==> result.t == TypeUint8 && valid(result) && uint8(result.num) == uint8(v.num) * uint8(b.num)
+//@   ensures#u8c v.t == TypeUint8 && b.t == untypedInt && fitsU8(b) ==> result.t == TypeUint8 && valid(result) && uint8(result.num) == uint8(v.num) * uint8(int64(b.num))
+//@   ensures#cu8 v.t == untypedInt && b.t == TypeUint8 && fitsU8(v) ==> result.t == TypeUint8 && valid(result) && uint8(result.num) == uint8(int64(v.num)) * uint8(b.num)
+//@   ensures#i32 v.t == TypeInt32 && b.t == TypeInt32 ==> result.t == TypeInt32 && valid(result) && int32(result.num) == int32(v.num) * int32(b.num)
+//@   ensures#i32c v.t == TypeInt32 && b.t == untypedInt && fits32(b) ==> result.t == TypeInt32 && valid(result) && int32(result.num) == int32(v.num) * int32(int64(b.num))
+//@   ensures#ci32 v.t == untypedInt && b.t == TypeInt32 && fits32(v) ==> result.t == TypeInt32 && valid(result) && int32(result.num) == int32(int64(v.num)) * int32(b.num)
+//@   ensures#u32 v.t == TypeUint32 && b.t == TypeUint32 ==> result.t == TypeUint32 && valid(result) && uint32(result.num) == uint32(v.num) * uint32(b.num)
+//@   ensures#u32c v.t == TypeUint32 && b.t == untypedInt && fitsU32(b) ==> result.t == TypeUint32 && valid(result) && uint32(result.num) == uint32(v.num) * uint32(int64(b.num))
+//@   ensures#cu32 v.t == untypedInt && b.t == TypeUint32 && fitsU32(v) ==> result.t == TypeUint32 && valid(result) && uint32(result.num) == uint32(int64(v.num)) * uint32(b.num)
+//@   ensures#f64 v.t == TypeFloat64 && b.t == TypeFloat64 ==> result.t == TypeFloat64 && same(result.num, v.num * b.num)
+//@   ensures#f64c v.t == TypeFloat64 && b.t == untypedInt ==> result.t == TypeFloat64 && same(result.num, v.num * b.num)
+//@   ensures#cf64 v.t == untypedInt && b.t == TypeFloat64 ==> result.t == TypeFloat64 && same(result.num, v.num * b.num)
+//@   ensures#cc v.t == untypedInt && b.t == untypedInt ==> result.t == untypedInt
+//@
+//@ func (Value).opDiv
+//@   property C04
+//@   intmode bv
+//@   pure
+//@   requires valid(v) && valid(b)
+//@   panics_iff ((v.t | b.t) == TypeInt8 && int8(b.num) == 0) || ((v.t | b.t) == TypeUint8 && uint8(b.num) == 0) || ((v.t | b.t) == TypeInt32 && int32(b.num) == 0) || ((v.t | b.t) == TypeUint32 && uint32(b.num) == 0) || ((v.t | b.t) != TypeFloat64 && (v.t | b.t) != TypeInt8 && (v.t | b.t) != TypeUint8 && (v.t | b.t) != TypeInt32 && (v.t | b.t) != TypeUint32 && int(b.num) == 0)
+//@   ensures#i8 v.t == TypeInt8 && b.t == TypeInt8 && int8(b.num) != 0 ==> result.t == TypeInt8 && valid(result) && int8(result.num) == int8(v.num) / int8(b.num)
+//@   ensures#i8c v.t == TypeInt8 && b.t == untypedInt && fits8(b) && int64(b.num) != 0 ==> result.t == TypeInt8 && valid(result) && int8(result.num) == int8(v.num) / int8(int64(b.num))
+//@   ensures#ci8 v.t == untypedInt && b.t == TypeInt8 && fits8(v) && int8(b.num) != 0 ==> result.t == TypeInt8 && valid(result) && int8(result.num) == int8(int64(v.num)) / int8(b.num)
+//@   ensures#u8 v.t == TypeUint8 && b.t == TypeUint8 && uint8(b.num) != 0 ==> result.t == TypeUint8 && valid(result) && uint8(result.num) == uint8(v.num) / uint8(b.num)
+//@   ensures#u8c v.t == TypeUint8 && b.t == untypedInt && fitsU8(b) && int64(b.num) != 0 ==> result.t == TypeUint8 && valid(result) && uint8(result.num) == uint8(v.num) / uint8(int64(b.num))
+//@   ensures#cu8 v.t == untypedInt && b.t == TypeUint8 && fitsU8(v) && uint8(b.num) != 0 ==> result.t == TypeUint8 && valid(result) && uint8(result.num) == uint8(int64(v.num)) / uint8(b.num)
+//@   ensures#i32 v.t == TypeInt32 && b.t == TypeInt32 && int32(b.num) != 0 ==> result.t == TypeInt32 && valid(result) && int32(result.num) == int32(v.num) / int32(b.num)
+//@   ensures#i32c v.t == TypeInt32 && b.t == untypedInt && fits32(b) && int64(b.num) != 0 ==> result.t == TypeInt32 && valid(result) && int32(result.num) == int32(v.num) / int32(int64(b.num))
+//@   ensures#ci32 v.t == untypedInt && b.t == TypeInt32 && fits32(v) && int32(b.num) != 0 ==> result.t == TypeInt32 && valid(result) && int32(result.num) == int32(int64(v.num)) / int32(b.num)
+//@   ensures#u32 v.t == TypeUint32 && b.t == TypeUint32 && uint32(b.num) != 0 ==> result.t == TypeUint32 && valid(result) && uint32(result.num) == uint32(v.num) / uint32(b.num)
+//@   ensures#u32c v.t == TypeUint32 && b.t == untypedInt && fitsU32(b) && int64(b.num) != 0 ==> result.t == TypeUint32 && valid(result) && uint32(result.num) == uint32(v.num) / uint32(int64(b.num))
+//@   ensures#cu32 v.t == untypedInt && b.t == TypeUint32 && fitsU32(v) && uint32(b.num) != 0 ==> result.t == TypeUint32 && valid(result) && uint32(result.num) == uint32(int64(v.num)) / uint32(b.num)
+//@   ensures#f64 v.t == TypeFloat64 && b.t == TypeFloat64 ==> result.t == TypeFloat64 && same(result.num, v.num / b.num)
+//@   ensures#f64c v.t == TypeFloat64 && b.t == untypedInt ==> result.t == TypeFloat64 && same(result.num, v.num / b.num)
+//@   ensures#cf64 v.t == untypedInt && b.t == TypeFloat64 ==> result.t == TypeFloat64 && same(result.num, v.num / b.num)
+//@   ensures#cc v.t == untypedInt && b.t == untypedInt ==> result.t == untypedInt
+//@
+//@ func (Value).opMod
+//@   property C04
+//@   intmode bv
+//@   pure
+//@   requires valid(v) && valid(b)
+//@   panics_iff ((v.t | b.t) == TypeInt8 && int8(b.num) == 0) || ((v.t | b.t) == TypeUint8 && uint8(b.num) == 0) || ((v.t | b.t) == TypeInt32 && int32(b.num) == 0) || ((v.t | b.t) == TypeUint32 && uint32(b.num) == 0) || ((v.t | b.t) == TypeFloat64 && int(b.num) == 0) || ((v.t | b.t) != TypeFloat64 && (v.t | b.t) != TypeInt8 && (v.t | b.t) != TypeUint8 && (v.t | b.t) != TypeInt32 && (v.t | b.t) != TypeUint32 && int(b.num) == 0)
+//@   ensures#i8 v.t == TypeInt8 && b.t == TypeInt8 && int8(b.num) != 0 ==> result.t == TypeInt8 && valid(result) && int8(result.num) == int8(v.num) % int8(b.num)
+//@   ensures#i8c v.t == TypeInt8 && b.t == untypedInt && fits8(b) && int64(b.num) != 0 ==> result.t == TypeInt8 && valid(result) && int8(result.num) == int8(v.num) % int8(int64(b.num))
+//@   ensures#ci8 v.t == untypedInt && b.t == TypeInt8 && fits8(v) && int8(b.num) != 0 ==> result.t == TypeInt8 && valid(result) && int8(result.num) == int8(int64(v.num)) % int8(b.num)
+//@   ensures#u8 v.t == TypeUint8 && b.t == TypeUint8 && uint8(b.num) != 0 ==> result.t == TypeUint8 && valid(result) && uint8(result.num) == uint8(v.num) % uint8(b.num)
+//@   ensures#u8c v.t == TypeUint8 && b.t == untypedInt && fitsU8(b) && int64(b.num) != 0 ==> result.t == TypeUint8 && valid(result) && uint8(result.num) == uint8(v.num) % uint8(int64(b.num))
+//@   ensures#cu8 v.t == untypedInt && b.t == TypeUint8 && fitsU8(v) && uint8(b.num) != 0 ==> result.t == TypeUint8 && valid(result) && uint8(result.num) == uint8(int64(v.num)) % uint8(b.num)
+//@   ensures#i32 v.t == TypeInt32 && b.t == TypeInt32 && int32(b.num) != 0 ==> result.t == TypeInt32 && valid(result) && int32(result.num) == int32(v.num) % int32(b.num)
+//@   ensures#i32c v.t == TypeInt32 && b.t == untypedInt && fits32(b) && int64(b.num) != 0 ==> result.t == TypeInt32 && valid(result) && int32(result.num) == int32(v.num) % int32(int64(b.num))
+//@   ensures#ci32 v.t == untypedInt && b.t == TypeInt32 && fits32(v) && int32(b.num) != 0 ==> result.t == TypeInt32 && valid(result) && int32(result.num) == int32(int64(v.num)) % int32(b.num)
+//@   ensures#u32 v.t == TypeUint32 && b.t == TypeUint32 && uint32(b.num) != 0 ==> result.t == TypeUint32 && valid(result) && uint32(result.num) == uint32(v.num) % uint32(b.num)
+//@   ensures#u32c v.t == TypeUint32 && b.t == untypedInt && fitsU32(b) && int64(b.num) != 0 ==> result.t == TypeUint32 && valid(result) && uint32(result.num) == uint32(v.num) % uint32(int64(b.num))
+//@   ensures#cu32 v.t == untypedInt && b.t == TypeUint32 && fitsU32(v) && uint32(b.num) != 0 ==> result.t == TypeUint32 && valid(result) && uint32(result.num) == uint32(int64(v.num)) % uint32(b.num)
+//@   ensures#cc v.t == untypedInt && b.t == untypedInt ==> result.t == untypedInt
+//@
+//@ func (Value).opBitAnd
+//@   property C04
+//@   intmode bv
+//@   pure
+//@   requires valid(v) && valid(b)
+//@   nopanic
+//@   ensures#i8 v.t == TypeInt8 && b.t == TypeInt8 ==> result.t == TypeInt8 && valid(result) && int8(result.num) == int8(v.num) & int8(b.num)
+//@   ensures#i8c v.t == TypeInt8 && b.t == untypedInt && fits8(b) ==> result.t == TypeInt8 && valid(result) && int8(result.num) == int8(v.num) & int8(int64(b.num))
+//@   ensures#ci8 v.t == untypedInt && b.t == TypeInt8 && fits8(v) ==> result.t == TypeInt8 && valid(result) && int8(result.num) == int8(int64(v.num)) & int8(b.num)
+//@   ensures#u8 v.t == TypeUint8 && b.t == TypeUint8 ==> result.t == TypeUint8 && valid(result) && uint8(result.num) == uint8(v.num) & uint8(b.num)
+//@   ensures#u8c v.t == TypeUint8 && b.t == untypedInt && fitsU8(b) ==> result.t == TypeUint8 && valid(result) && uint8(result.num) == uint8(v.num) & uint8(int64(b.num))
+//@   ensures#cu8 v.t == untypedInt && b.t == TypeUint8 && fitsU8(v) ==> result.t == TypeUint8 && valid(result) && uint8(result.num) == uint8(int64(v.num)) & uint8(b.num)
+//@   ensures#i32 v.t == TypeInt32 && b.t == TypeInt32 ==> result.t == TypeInt32 && valid(result) && int32(result.num) == int32(v.num) & int32(b.num)
+//@   ensures#i32c v.t == TypeInt32 && b.t == untypedInt && fits32(b) ==> result.t == TypeInt32 && valid(result) && int32(result.num) == int32(v.num) & int32(int64(b.num))
+//@   ensures#ci32 v.t == untypedInt && b.t == TypeInt32 && fits32(v) ==> result.t == TypeInt32 && valid(result) && int32(result.num) == int32(int64(v.num)) & int32(b.num)
+//@   ensures#u32 v.t == TypeUint32 && b.t == TypeUint32 ==> result.t == TypeUint32 && valid(result) && uint32(result.num) == uint32(v.num) & uint32(b.num)
+//@   ensures#u32c v.t == TypeUint32 && b.t == untypedInt && fitsU32(b) ==> result.t == TypeUint32 && valid(result) && uint32(result.num) == uint32(v.num) & uint32(int64(b.num))
+//@   ensures#cu32 v.t == untypedInt && b.t == TypeUint32 && fitsU32(v) ==> result.t == TypeUint32 && valid(result) && uint32(result.num) == uint32(int64(v.num)) & uint32(b.num)
+//@   ensures#cc v.t == untypedInt && b.t == untypedInt ==> result.t == untypedInt
+//@
+//@ func (Value).opBitOr
+//@   property C04
+//@   intmode bv
+//@   pure
+//@   requires valid(v) && valid(b)
+//@   nopanic
+//@   ensures#i8 v.t == TypeInt8 && b.t == TypeInt8 ==> result.t == TypeInt8 && valid(result) && int8(result.num) == int8(v.num) | int8(b.num)
+//@   ensures#i8c v.t == TypeInt8 && b.t == untypedInt && fits8(b) ==> result.t == TypeInt8 && valid(result) && int8(result.num) == int8(v.num) | int8(int64(b.num))
+//@   ensures#ci8 v.t == untypedInt && b.t == TypeInt8 && fits8(v) ==> result.t == TypeInt8 && valid(result) && int8(result.num) == int8(int64(v.num)) | int8(b.num)
+//@   ensures#u8 v.t == TypeUint8 && b.t == TypeUint8 ==> result.t == TypeUint8 && valid(result) && uint8(result.num) == uint8(v.num) | uint8(b.num)
+//@   ensures#u8c v.t == TypeUint8 && b.t == untypedInt && fitsU8(b) ==> result.t == TypeUint8 && valid(result) && uint8(result.num) == uint8(v.num) | uint8(int64(b.num))
+//@   ensures#cu8 v.t == untypedInt && b.t == TypeUint8 && fitsU8(v) ==> result.t == TypeUint8 && valid(result) && uint8(result.num) == uint8(int64(v.num)) | uint8(b.num)
+//@   ensures#i32 v.t == TypeInt32 && b.t == TypeInt32 ==> result.t == TypeInt32 && valid(result) && int32(result.num) == int32(v.num) | int32(b.num)
+//@   ensures#i32c v.t == TypeInt32 && b.t == untypedInt && fits32(b) ==> result.t == TypeInt32 && valid(result) && int32(result.num) == int32(v.num) | int32(int64(b.num))
+//@   ensures#ci32 v.t == untypedInt && b.t == TypeInt32 && fits32(v) ==> result.t == TypeInt32 && valid(result) && int32(result.num) == int32(int64(v.num)) | int32(b.num)
+//@   ensures#u32 v.t == TypeUint32 && b.t == TypeUint32 ==> result.t == TypeUint32 && valid(result) && uint32(result.num) == uint32(v.num) | uint32(b.num)
+//@   ensures#u32c v.t == TypeUint32 && b.t == untypedInt && fitsU32(b) ==> result.t == TypeUint32 && valid(result) && uint32(result.num) == uint32(v.num) | uint32(int64(b.num))
+//@   ensures#cu32 v.t == untypedInt && b.t == TypeUint32 && fitsU32(v) ==> result.t == TypeUint32 && valid(result) && uint32(result.num) == uint32(int64(v.num)) | uint32(b.num)
+//@   ensures#cc v.t == untypedInt && b.t == untypedInt ==> result.t == untypedInt
+//@
+//@ func (Value).opBitXor
+//@   property C04
+//@   intmode bv
+//@   pure
+//@   requires valid(v) && valid(b)
+//@   nopanic
+//@   ensures#i8 v.t == TypeInt8 && b.t == TypeInt8 ==> result.t == TypeInt8 && valid(result) && int8(result.num) == int8(v.num) ^ int8(b.num)
+//@   ensures#i8c v.t == TypeInt8 && b.t == untypedInt && fits8(b) ==> result.t == TypeInt8 && valid(result) && int8(result.num) == int8(v.num) ^ int8(int64(b.num))
+//@   ensures#ci8 v.t == untypedInt && b.t == TypeInt8 && fits8(v) ==> result.t == TypeInt8 && valid(result) && int8(result.num) == int8(int64(v.num)) ^ int8(b.num)
+//@   ensures#u8 v.t == TypeUint8 && b.t == TypeUint8 ==> result.t == TypeUint8 && valid(result) && uint8(result.num) == uint8(v.num) ^ uint8(b.num)
+//@   ensures#u8c v.t == TypeUint8 && b.t == untypedInt && fitsU8(b) ==> result.t == TypeUint8 && valid(result) && uint8(result.num) == uint8(v.num) ^ uint8(int64(b.num))
+//@   ensures#cu8 v.t == untypedInt && b.t == TypeUint8 && fitsU8(v) ==> result.t == TypeUint8 && valid(result) && uint8(result.num) == uint8(int64(v.num)) ^ uint8(b.num)
+//@   ensures#i32 v.t == TypeInt32 && b.t == TypeInt32 ==> result.t == TypeInt32 && valid(result) && int32(result.num) == int32(v.num) ^ int32(b.num)
+//@   ensures#i32c v.t == TypeInt32 && b.t == untypedInt && fits32(b) ==> result.t == TypeInt32 && valid(result) && int32(result.num) == int32(v.num) ^ int32(int64(b.num))
+//@   ensures#ci32 v.t == untypedInt && b.t == TypeInt32 && fits32(v) ==> result.t == TypeInt32 && valid(result) && int32(result.num) == int32(int64(v.num)) ^ int32(b.num)
+//@   ensures#u32 v.t == TypeUint32 && b.t == TypeUint32 ==> result.t == TypeUint32 && valid(result) && uint32(result.num) == uint32(v.num) ^ uint32(b.num)
+//@   ensures#u32c v.t == TypeUint32 && b.t == untypedInt && fitsU32(b) ==> result.t == TypeUint32 && valid(result) && uint32(result.num) == uint32(v.num) ^ uint32(int64(b.num))
+//@   ensures#cu32 v.t == untypedInt && b.t == TypeUint32 && fitsU32(v) ==> result.t == TypeUint32 && valid(result) && uint32(result.num) == uint32(int64(v.num)) ^ uint32(b.num)
+//@   ensures#cc v.t == untypedInt && b.t == untypedInt ==> result.t == untypedInt
+//@
+//@ func (Value).opBitLsh
+//@   property C04
+//@   intmode bv
+//@   pure
+//@   requires valid(v) && valid(b)
+//@   panics_iff ((v.t | b.t) == TypeInt8 && int8(b.num) < 0) || ((v.t | b.t) == TypeInt32 && int32(b.num) < 0) || ((v.t | b.t) != TypeInt8 && (v.t | b.t) != TypeUint8 && (v.t | b.t) != TypeInt32 && (v.t | b.t) != TypeUint32 && int(b.num) < 0)
+//@   ensures#i8 v.t == TypeInt8 && b.t == TypeInt8 && int8(b.num) >= 0 ==> result.t == TypeInt8 && valid(result) && int8(result.num) == int8(v.num) << int8(b.num)
+//@   ensures#i8c v.t == TypeInt8 && b.t == untypedInt && fits8(b) && int64(b.num) >= 0 ==> result.t == TypeInt8 && valid(result) && int8(result.num) == int8(v.num) << int8(int64(b.num))
+//@   ensures#u8 v.t == TypeUint8 && b.t == TypeUint8 ==> result.t == TypeUint8 && valid(result) && uint8(result.num) == uint8(v.num) << uint8(b.num)
+//@   ensures#u8c v.t == TypeUint8 && b.t == untypedInt && fitsU8(b) && int64(b.num) >= 0 ==> result.t == TypeUint8 && valid(result) && uint8(result.num) == uint8(v.num) << uint8(int64(b.num))
+//@   ensures#i32 v.t == TypeInt32 && b.t == TypeInt32 && int32(b.num) >= 0 ==> result.t == TypeInt32 && valid(result) && int32(result.num) == int32(v.num) << int32(b.num)
+//@   ensures#i32c v.t == TypeInt32 && b.t == untypedInt && fits32(b) && int64(b.num) >= 0 ==> result.t == TypeInt32 && valid(result) && int32(result.num) == int32(v.num) << int32(int64(b.num))
+//@   ensures#u32 v.t == TypeUint32 && b.t == TypeUint32 ==> result.t == TypeUint32 && valid(result) && uint32(result.num) == uint32(v.num) << uint32(b.num)
+//@   ensures#u32c v.t == TypeUint32 && b.t == untypedInt && fitsU32(b) && int64(b.num) >= 0 ==> result.t == TypeUint32 && valid(result) && uint32(result.num) == uint32(v.num) << uint32(int64(b.num))
+//@   ensures#cc v.t == untypedInt && b.t == untypedInt ==> result.t == untypedInt
+//@   ensures#mixedcount v.t == TypeUint8 && b.t == TypeInt32 && int32(b.num) >= 0 ==> result.t == TypeUint8 && valid(result) && uint8(result.num) == uint8(v.num) << int32(b.num)
+//@
+//@ func (Value).opBitRsh
+//@   property C04
+//@   intmode bv
+//@   pure
+//@   requires valid(v) && valid(b)
+//@   panics_iff ((v.t | b.t) == TypeInt8 && int8(b.num) < 0) || ((v.t | b.t) == TypeInt32 && int32(b.num) < 0) || ((v.t | b.t) != TypeInt8 && (v.t | b.t) != TypeUint8 && (v.t | b.t) != TypeInt32 && (v.t | b.t) != TypeUint32 && int(b.num) < 0)
+//@   ensures#i8 v.t == TypeInt8 && b.t == TypeInt8 && int8(b.num) >= 0 ==> result.t == TypeInt8 && valid(result) && int8(result.num) == int8(v.num) >> int8(b.num)
+//@   ensures#i8c v.t == TypeInt8 && b.t == untypedInt && fits8(b) && int64(b.num) >= 0 ==> result.t == TypeInt8 && valid(result) && int8(result.num) == int8(v.num) >> int8(int64(b.num))
+//@   ensures#u8 v.t == TypeUint8 && b.t == TypeUint8 ==> result.t == TypeUint8 && valid(result) && uint8(result.num) == uint8(v.num) >> uint8(b.num)
+//@   ensures#u8c v.t == TypeUint8 && b.t == untypedInt && fitsU8(b) && int64(b.num) >= 0 ==> result.t == TypeUint8 && valid(result) && uint8(result.num) == uint8(v.num) >> uint8(int64(b.num))
+//@   ensures#i32 v.t == TypeInt32 && b.t == TypeInt32 && int32(b.num) >= 0 ==> result.t == TypeInt32 && valid(result) && int32(result.num) == int32(v.num) >> int32(b.num)
+//@   ensures#i32c v.t == TypeInt32 && b.t == untypedInt && fits32(b) && int64(b.num) >= 0 ==> result.t == TypeInt32 && valid(result) && int32(result.num) == int32(v.num) >> int32(int64(b.num))
+//@   ensures#u32 v.t == TypeUint32 && b.t == TypeUint32 ==> result.t == TypeUint32 && valid(result) && uint32(result.num) == uint32(v.num) >> uint32(b.num)
+//@   ensures#u32c v.t == TypeUint32 && b.t == untypedInt && fitsU32(b) && int64(b.num) >= 0 ==> result.t == TypeUint32 && valid(result) && uint32(result.num) == uint32(v.num) >> uint32(int64(b.num))
+//@   ensures#cc v.t == untypedInt && b.t == untypedInt ==> result.t == untypedInt
+//@   ensures#mixedcount v.t == TypeUint8 && b.t == TypeInt32 && int32(b.num) >= 0 ==> result.t == TypeUint8 && valid(result) && uint8(result.num) == uint8(v.num) >> int32(b.num)
+//@
+//@ func (Value).opLt
+//@   property C04
+//@   intmode bv
+//@   axioms MONO_lt MONO_leq MONO_eq
+//@   pure
+//@   requires valid(v) && valid(b)
+//@   panics_iff v.t == TypeString && (!is(v.value, stringT) || !is(b.value, stringT))
+//@   ensures#tag v.t != TypeString ==> result.t == TypeBool && (same(result.num, 1.0) || same(result.num, 0.0))
+//@   ensures#i8 v.t == TypeInt8 && b.t == TypeInt8 ==> result.Bool() == (int8(v.num) < int8(b.num))
+//@   ensures#u8 v.t == TypeUint8 && b.t == TypeUint8 ==> result.Bool() == (uint8(v.num) < uint8(b.num))
+//@   ensures#i32 v.t == TypeInt32 && b.t == TypeInt32 ==> result.Bool() == (int32(v.num) < int32(b.num))
+//@   ensures#u32 v.t == TypeUint32 && b.t == TypeUint32 ==> result.Bool() == (uint32(v.num) < uint32(b.num))
+//@   ensures#f64 v.t == TypeFloat64 && b.t == TypeFloat64 ==> result.Bool() == (v.num < b.num)
+//@   ensures#i8c v.t == TypeInt8 && b.t == untypedInt && fits8(b) ==> result.Bool() == (int8(v.num) < int8(int64(b.num)))
+//@   ensures#u8c v.t == TypeUint8 && b.t == untypedInt && fitsU8(b) ==> result.Bool() == (uint8(v.num) < uint8(int64(b.num)))
+//@   ensures#i32c v.t == TypeInt32 && b.t == untypedInt && fits32(b) ==> result.Bool() == (int32(v.num) < int32(int64(b.num)))
+//@   ensures#u32c v.t == TypeUint32 && b.t == untypedInt && fitsU32(b) ==> result.Bool() == (uint32(v.num) < uint32(int64(b.num)))
+//@   ensures#str v.t == TypeString && is(v.value, stringT) && is(b.value, stringT) ==> result.t == TypeBool && result.Bool() == (as(v.value, stringT) < as(b.value, stringT))
+//@
+//@ func (Value).opLte
+//@   property C04
+//@   intmode bv
+//@   axioms MONO_lt MONO_leq MONO_eq
+//@   pure
+//@   requires valid(v) && valid(b)
+//@   panics_iff v.t == TypeString && (!is(v.value, stringT) || !is(b.value, stringT))
+//@   ensures#tag v.t != TypeString ==> result.t == TypeBool && (same(result.num, 1.0) || same(result.num, 0.0))
+//@   ensures#i8 v.t == TypeInt8 && b.t == TypeInt8 ==> result.Bool() == (int8(v.num) <= int8(b.num))
+//@   ensures#u8 v.t == TypeUint8 && b.t == TypeUint8 ==> result.Bool() == (uint8(v.num) <= uint8(b.num))
+//@   ensures#i32 v.t == TypeInt32 && b.t == TypeInt32 ==> result.Bool() == (int32(v.num) <= int32(b.num))
+//@   ensures#u32 v.t == TypeUint32 && b.t == TypeUint32 ==> result.Bool() == (uint32(v.num) <= uint32(b.num))
+//@   ensures#f64 v.t == TypeFloat64 && b.t == TypeFloat64 ==> result.Bool() == (v.num <= b.num)
+//@   ensures#i8c v.t == TypeInt8 && b.t == untypedInt && fits8(b) ==> result.Bool() == (int8(v.num) <= int8(int64(b.num)))
+//@   ensures#i32c v.t == TypeInt32 && b.t == untypedInt && fits32(b) ==> result.Bool() == (int32(v.num) <= int32(int64(b.num)))
+//@   ensures#str v.t == TypeString && is(v.value, stringT) && is(b.value, stringT) ==> result.t == TypeBool && result.Bool() == (as(v.value, stringT) <= as(b.value, stringT))
+//@
+//@ func (Value).Equals
+//@   property C04
+//@   intmode bv
+//@   axioms MONO_lt MONO_leq MONO_eq
+//@   pure
+//@   requires valid(v) && valid(b)
+//@   panics_iff v.t != TypeBool && (v.t & TypeFloat64) == 0 && v.t == TypeString && (!is(v.value, stringT) || !is(b.value, stringT))
+//@   ensures#i8 v.t == TypeInt8 && b.t == TypeInt8 ==> result == (int8(v.num) == int8(b.num))
+//@   ensures#u8 v.t == TypeUint8 && b.t == TypeUint8 ==> result == (uint8(v.num) == uint8(b.num))
+//@   ensures#i32 v.t == TypeInt32 && b.t == TypeInt32 ==> result == (int32(v.num) == int32(b.num))
+//@   ensures#u32 v.t == TypeUint32 && b.t == TypeUint32 ==> result == (uint32(v.num) == uint32(b.num))
+//@   ensures#f64 v.t == TypeFloat64 && b.t == TypeFloat64 ==> result == (v.num == b.num)
+//@   ensures#i8c v.t == TypeInt8 && b.t == untypedInt && fits8(b) ==> result == (int8(v.num) == int8(int64(b.num)))
+//@   ensures#i32c v.t == TypeInt32 && b.t == untypedInt && fits32(b) ==> result == (int32(v.num) == int32(int64(b.num)))
+//@   ensures#ci32 v.t == untypedInt && b.t == TypeInt32 && fits32(v) ==> result == (int32(int64(v.num)) == int32(b.num))
+//@   ensures#bool v.t == TypeBool && b.t == TypeBool ==> result == (v.Bool() == b.Bool()) || !(same(v.num, 0.0) || same(v.num, 1.0)) || !(same(b.num, 0.0) || same(b.num, 1.0))
+//@   ensures#str v.t == TypeString && is(v.value, stringT) && is(b.value, stringT) ==> result == (as(v.value, stringT) == as(b.value, stringT))
+//@   ensures#nilnil v.t == TypeNil && b.t == TypeNil ==> result
+//@
+//@ func (Value).opEq
+//@   property C04
+//@   intmode bv
+//@   pure
+//@   requires valid(v) && valid(b)
+//@   ensures result.t == TypeBool && result.Bool() == v.Equals(b)
+//@
+//@ func (Value).opNeq
+//@   property C04
+//@   intmode bv
+//@   pure
+//@   requires valid(v) && valid(b)
+//@   ensures result.t == TypeBool && result.Bool() == !v.Equals(b)
+//@
+// assign: untyped constants and nil take the declared type (declarations, assignments,
+// parameters, results, fields, container elements all go through it).
+//@ func (Value).assign
+//@   property C04
+//@   intmode bv
+//@   pure
+//@   nopanic
+//@   requires valid(v)
+//@   ensures#same v.t == t ==> result == v
+//@   ensures#i8 v.t == untypedInt && t == TypeInt8 && fits8(v) ==> result.t == TypeInt8 && valid(result) && int8(result.num) == int8(int64(v.num))
+//@   ensures#u8 v.t == untypedInt && t == TypeUint8 && fitsU8(v) ==> result.t == TypeUint8 && valid(result) && uint8(result.num) == uint8(int64(v.num))
+//@   ensures#i32 v.t == untypedInt && t == TypeInt32 && fits32(v) ==> result.t == TypeInt32 && valid(result) && int32(result.num) == int32(int64(v.num))
+//@   ensures#u32 v.t == untypedInt && t == TypeUint32 && fitsU32(v) ==> result.t == TypeUint32 && valid(result) && uint32(result.num) == uint32(int64(v.num))
+//@   ensures#f64 v.t == untypedInt && t == TypeFloat64 ==> result.t == TypeFloat64 && same(result.num, v.num)
+//@   ensures#any v.t == untypedInt && t != TypeFloat64 && !isInt(t) && t != untypedInt && fits32(v) ==> result.t == TypeInt32 && valid(result) && int32(result.num) == int32(int64(v.num))
+//@   ensures#typed v.t != untypedInt && v.t != TypeNil ==> result == v
+//@   ensures#nil v.t == TypeNil && t >= nillableMin ==> result.t == t && isnil(result.value) && same(result.num, 0.0)
+//@   ensures#nilany v.t == TypeNil && t < nillableMin && t != TypeNil ==> result.t == TypeNil && isnil(result.value)
+//@   ensures#valid valid(result) || (v.t == untypedInt && !fits32(v))
+//@
+// convert: Go conversions T(x) among the numeric types.
+//@ func (Value).convert
+//@   property C04
+//@   intmode bv
+//@   requires valid(v)
+//@   requires t == TypeUint8 || t == TypeInt8 || t == TypeInt32 || t == TypeUint32 || t == TypeFloat64
+//@   nopanic
+//@   ensures#tag result.t == t && valid(result)
+//@   ensures#i8_u8 t == TypeUint8 && v.t == TypeInt8 ==> uint8(result.num) == uint8(int8(v.num))
+//@   ensures#i32_u8 t == TypeUint8 && v.t == TypeInt32 ==> uint8(result.num) == uint8(int32(v.num))
+//@   ensures#u32_u8 t == TypeUint8 && v.t == TypeUint32 ==> uint8(result.num) == uint8(uint32(v.num))
+//@   ensures#u8_u8 t == TypeUint8 && v.t == TypeUint8 ==> uint8(result.num) == uint8(v.num)
+//@   ensures#c_u8 t == TypeUint8 && v.t == untypedInt && fitsU8(v) ==> uint8(result.num) == uint8(int64(v.num))
+//@   ensures#u8_i8 t == TypeInt8 && v.t == TypeUint8 ==> int8(result.num) == int8(uint8(v.num))
+//@   ensures#i32_i8 t == TypeInt8 && v.t == TypeInt32 ==> int8(result.num) == int8(int32(v.num))
+//@   ensures#u32_i8 t == TypeInt8 && v.t == TypeUint32 ==> int8(result.num) == int8(uint32(v.num))
+//@   ensures#i8_i8 t == TypeInt8 && v.t == TypeInt8 ==> int8(result.num) == int8(v.num)
+//@   ensures#c_i8 t == TypeInt8 && v.t == untypedInt && fits8(v) ==> int8(result.num) == int8(int64(v.num))
+//@   ensures#i8_i32 t == TypeInt32 && v.t == TypeInt8 ==> int32(result.num) == int32(int8(v.num))
+//@   ensures#u8_i32 t == TypeInt32 && v.t == TypeUint8 ==> int32(result.num) == int32(uint8(v.num))
+//@   ensures#u32_i32 t == TypeInt32 && v.t == TypeUint32 ==> int32(result.num) == int32(uint32(v.num))
+//@   ensures#i32_i32 t == TypeInt32 && v.t == TypeInt32 ==> int32(result.num) == int32(v.num)
+//@   ensures#c_i32 t == TypeInt32 && v.t == untypedInt && fits32(v) ==> int32(result.num) == int32(int64(v.num))
+//@   ensures#f64_i32 t == TypeInt32 && v.t == TypeFloat64 ==> int32(result.num) == int32(v.num)
+//@   ensures#i8_u32 t == TypeUint32 && v.t == TypeInt8 ==> uint32(result.num) == uint32(int8(v.num))
+//@   ensures#u8_u32 t == TypeUint32 && v.t == TypeUint8 ==> uint32(result.num) == uint32(uint8(v.num))
+//@   ensures#i32_u32 t == TypeUint32 && v.t == TypeInt32 ==> uint32(result.num) == uint32(int32(v.num))
+//@   ensures#u32_u32 t == TypeUint32 && v.t == TypeUint32 ==> uint32(result.num) == uint32(v.num)
+//@   ensures#c_u32 t == TypeUint32 && v.t == untypedInt && fitsU32(v) ==> uint32(result.num) == uint32(int64(v.num))
+//@   ensures#f64_u32 t == TypeUint32 && v.t == TypeFloat64 ==> uint32(result.num) == uint32(v.num)
+//@   ensures#f64 t == TypeFloat64 ==> same(result.num, v.num)
+//@
+
+// ---------------------------------------------------------------------------------------------
+// Constructors and accessors (embedding API round trips, C19)
+// ---------------------------------------------------------------------------------------------
+//@ func (Value).Float64
+//@   inline
+//@ func (Value).Int
+//@   inline
+//@ func (Value).Int32
+//@   inline
+//@ func (Value).Uint
+//@   inline
+//@ func (Value).Uint32
+//@   inline
+//@ func (Value).Int8
+//@   inline
+//@ func (Value).Byte
+//@   inline
+//@ func (Value).Uint8
+//@   inline
+//@ func newUntypedInt
+//@   property C19 C04
+//@   intmode bv
+//@   pure
+//@   nopanic
+//@   ensures result.t == untypedInt && isnil(result.value)
+//@   ensures small(int64(v)) ==> valid(result) && int64(result.num) == int64(v)
+//@
+//@ func Float64
+//@   property C19
+//@   intmode bv
+//@   pure
+//@   nopanic
+//@   ensures result.t == TypeFloat64 && same(result.Float64(), v) && valid(result) && isnil(result.value)
+//@ func Int32
+//@   property C19
+//@   intmode bv
+//@   pure
+//@   nopanic
+//@   ensures result.t == TypeInt32 && result.Int32() == v && valid(result) && isnil(result.value)
+//@ func Uint32
+//@   property C19
+//@   intmode bv
+//@   pure
+//@   nopanic
+//@   ensures result.t == TypeUint32 && result.Uint32() == v && valid(result) && isnil(result.value)
+//@ func Int8
+//@   property C19
+//@   intmode bv
+//@   pure
+//@   nopanic
+//@   ensures result.t == TypeInt8 && result.Int8() == v && valid(result) && isnil(result.value)
+//@ func Uint8
+//@   property C19
+//@   intmode bv
+//@   pure
+//@   nopanic
+//@   ensures result.t == TypeUint8 && result.Uint8() == v && result.Byte() == v && valid(result) && isnil(result.value)
+//@ func Byte
+//@   property C19
+//@   intmode bv
+//@   pure
+//@   nopanic
+//@   ensures result.t == TypeUint8 && result.Byte() == v && result.Uint8() == v && valid(result) && isnil(result.value)
+//@ func Int
+//@   property C19
+//@   intmode bv
+//@   pure
+//@   nopanic
+//@   ensures result.t == TypeInt32 && valid(result) && isnil(result.value)
+//@   ensures -2147483648 <= v && v <= 2147483647 ==> result.Int() == v
+//@   ensures result.Int32() == int32(v)
+//@ func Uint
+//@   property C19
+//@   intmode bv
+//@   pure
+//@   nopanic
+//@   ensures result.t == TypeUint32 && valid(result) && isnil(result.value)
+//@   ensures v <= 4294967295 ==> result.Uint() == v
+//@   ensures result.Uint32() == uint32(v)
+//@ func Wrap
+//@   property C19
+//@   pure
+//@   nopanic
+//@   ensures result.t == TypeObject && result.Unwrap() == o
+//@ func (Value).Unwrap
+//@   inline
+//@ func (Value).IsNil
+//@   inline
+//@ func (Value).convert case TypeUint8
+//@ func (Value).convert case TypeInt8
+//@ func (Value).convert case TypeInt32
+//@ func (Value).convert case TypeUint32
+//@   axioms AMD64_u32
+//@ func (Value).convert case TypeFloat64
